@@ -77,6 +77,7 @@ type NodeSpec struct {
 	Post     string       `json:"post,omitempty"`   // state post handler: value | stream | wrap
 	Static   bool         `json:"static,omitempty"` // workflow only: SetStaticValue — the framework merges a one-chunk stream of its own into the node's input
 	Rerun    int          `json:"rerun,omitempty"`  // stream-input kinds: the first Rerun executions close the input and return compose.InterruptAndRerun (oracle only)
+	Tail     string       `json:"tail,omitempty"`   // tails.go — prod: empty = the producer sends nothing and closes ; err = the last of its items is an error chunk ; conv: drop = the converter answers schema.ErrNoValue to every chunk (its output is an empty stream)
 }
 
 // Case is one streaming run.
@@ -94,13 +95,14 @@ type Case struct {
 	Input         string       `json:"input"` // value: r.Stream(value) ; stream: r.Transform(Pipe fed by a producer goroutine) ; collect: r.Collect(same Pipe), the framework drains the output
 	InCap         int          `json:"in_cap,omitempty"`
 	InItems       int          `json:"in_items,omitempty"`
-	Handlers      int          `json:"handlers"`       // callback handlers passed with compose.WithCallbacks
-	HandlerPrefix int          `json:"handler_prefix"` // chunks each handler reads from its copy before closing it
+	Handlers      int          `json:"handlers"`                // callback handlers passed with compose.WithCallbacks
+	HandlerPrefix int          `json:"handler_prefix"`          // chunks each handler reads from its copy before closing it
 	SameHandler   bool         `json:"same_handler,omitempty"`  // Handlers == 2: the same handler value is passed twice
 	HandlerNodes  []int        `json:"handler_nodes,omitempty"` // one more handler each, designated to this top-level lambda node (WithCallbacks(h).DesignateNode)
-	Read          int          `json:"read"`           // -1: read the output to EOF ; k >= 0: read k chunks, then Close
+	Read          int          `json:"read"`                    // -1: read the output to EOF ; k >= 0: read k chunks, then Close
 	CloseAfterEOF bool         `json:"close_after_eof,omitempty"`
-	Storm         *StormSpec   `json:"storm,omitempty"` // a concurrent close storm on the copies of one stream precedes the run (storm.go)
+	Storm         *StormSpec   `json:"storm,omitempty"`   // a concurrent close storm on the copies of one stream precedes the run (storm.go)
+	Prelude       string       `json:"prelude,omitempty"` // calls made on the compiled runnable BEFORE the run that is sent to the model (prelude.go): seq = one call ; conc = two calls at the same moment, the first calls on the fresh compile
 }
 
 func nodeName(i int) string {
